@@ -9,6 +9,8 @@ type TypeDescriptor struct {
 	key    *TypeDescriptor
 	elem   *TypeDescriptor
 	msg    *MessageDescriptor // for message, list+message element and map key-value entry
+	// unpacked is set for a LIST declared with an explicit [packed = false]
+	unpacked bool
 }
 
 func (t *TypeDescriptor) Type() Type {
@@ -35,7 +37,7 @@ func (t *TypeDescriptor) IsPacked() bool {
 	if t.typ != LIST {
 		return false // if not list, return false forever
 	}
-	return t.elem.typ.IsPacked()
+	return !t.unpacked && t.elem.typ.IsPacked()
 }
 
 func (f *TypeDescriptor) IsMap() bool {
